@@ -4,7 +4,7 @@ import hashlib
 import numpy as np
 
 GETTERS = {
-    3: ["array", "areas_exact", "areas_approx", "adjacency", "borders", "distances"],
+    3: ["array", "array_upper_view", "areas_exact", "areas_approx", "adjacency", "borders", "distances"],
     4: ["array_upper", "array_full", "volumes", "adjacency", "borders", "distances"],
 }
 
@@ -19,6 +19,8 @@ def make_grid(alg, N):
 def call_getter(g, name):
     if name == "array":
         return g.get_grid_as_array()
+    if name == "array_upper_view":
+        return g.get_grid_as_array(only_upper=True)
     if name == "array_upper":
         return g.get_grid_as_array(only_upper=True)
     if name == "array_full":
